@@ -177,3 +177,164 @@ fn c16_unix_path_len() {
     assert!(storage.sun_path[n] == 0, "NUL-terminated inside the covered bytes");
     kani::cover!(n == UNIX_MAX, "longest bounded name");
 }
+
+// =========================================================================================
+// C10  step contracts of send_all / send_all_vectored / recv_n / recv_n_vectored (see kani/io_mod.rs for the method)
+// =========================================================================================
+use crate::io::verif_io::{RB, any_rb, mk_fd};
+use crate::io_uring::op::verif_op::{St, force_done, peek_resources, status_any};
+use crate::io_uring::sq::verif_sq::subs_of;
+use crate::io_uring::verif_uring::FakeSq;
+use crate::verif_env as env;
+use std::task::Context;
+
+fn same_call(a: SendCall, zc: bool) -> bool {
+    matches!(a, SendCall::ZeroCopy) == zc
+}
+
+/// send_all step: n == 0 => WriteZero; everything sent => Ok(original buffer); otherwise re-armed with the same
+/// buffer, skip' = skip+n, and the SAME flags and zero-copy mode the caller chose.
+//@waker_stubs
+#[kani::proof]
+#[kani::unwind(3)]
+fn c10_send_all_step() {
+    let mut ring = FakeSq::<2>::new(0, 0, 0);
+    let subs = subs_of(ring.shared(2, false, false));
+    let (afd, _fdn, _kind) = mk_fd(&subs);
+    let buf = any_rb(0);
+    kani::assume(buf.len >= 1);
+    let skip: u32 = kani::any();
+    kani::assume(skip < buf.len);
+    let fl: u32 = kani::any();
+    let zc: bool = kani::any();
+    let mut w = afd.send_all(buf).flags(SendFlag(fl));
+    if zc {
+        w = w.zc();
+    }
+    w.send.fut.state.resources_mut().unwrap().skip = skip;
+    let n: u32 = kani::any();
+    kani::assume(n <= buf.len - skip);
+    force_done(&w.send.fut.state, n as i32, 0);
+    env::fallback_as_identity();
+    env::use_poll_contract();
+    env::cut_at_repoll();
+    let waker = env::waker(4);
+    let mut ctx = Context::from_waker(&waker);
+    let r = unsafe { Pin::new_unchecked(&mut w) }.poll_inner(&mut ctx);
+    if n == 0 {
+        assert!(matches!(&r, Poll::Ready(Err(e)) if e.kind() == io::ErrorKind::WriteZero), "nothing accepted => WriteZero");
+    } else if skip + n == buf.len {
+        assert!(matches!(&r, Poll::Ready(Ok(b)) if b.ptr == buf.ptr && b.len == buf.len), "everything sent => Ok with the original buffer");
+        assert!(unsafe { env::E.repoll_entries } == 1);
+    } else {
+        assert!(r.is_pending() && unsafe { env::E.repoll_entries } == 2);
+        assert!(status_any(&w.send.fut.state) == St::NotStarted);
+        let res = peek_resources(&w.send.fut.state);
+        assert!(res.skip == skip + n && res.buf.ptr == buf.ptr && res.buf.len == buf.len, "same buffer, continues after the bytes sent");
+        let a = w.send.fut.state.args();
+        assert!(a.1.0 == fl && same_call(a.0, zc), "continuation keeps the caller's flags and zero-copy mode");
+    }
+    std::mem::forget(r);
+    std::mem::forget(w);
+    assert!(!(n > 0 && skip + n < buf.len && zc && fl != 0), "CANARY: zero-copy continuation with flags reachable");
+    assert!(!(skip + n == buf.len && skip > 0), "CANARY: finished after a partial send reachable");
+    assert!(n != 0, "CANARY: write zero reachable");
+}
+
+/// send_all_vectored step (2 buffers, empties anywhere)
+//@waker_stubs
+#[kani::proof]
+#[kani::unwind(4)]
+fn c10_send_all_vectored_step() {
+    let mut ring = FakeSq::<2>::new(0, 0, 0);
+    let subs = subs_of(ring.shared(2, false, false));
+    let (afd, _fdn, _kind) = mk_fd(&subs);
+    let b0 = any_rb(0);
+    let b1 = any_rb(1);
+    let total = b0.len as u64 + b1.len as u64;
+    kani::assume(total >= 1);
+    let skip: u64 = kani::any();
+    kani::assume(skip < total);
+    let fl: u32 = kani::any();
+    let zc: bool = kani::any();
+    let mut w = afd.send_all_vectored((b0, b1)).flags(SendFlag(fl));
+    if zc {
+        w = w.zc();
+    }
+    w.skip = skip;
+    let n: u64 = kani::any();
+    kani::assume(n <= total - skip);
+    force_done(&w.send.fut.state, n as i32, 0);
+    env::fallback_as_identity();
+    env::use_poll_contract();
+    env::cut_at_repoll();
+    let waker = env::waker(4);
+    let mut ctx = Context::from_waker(&waker);
+    let r = unsafe { Pin::new_unchecked(&mut w) }.poll_inner(&mut ctx);
+    if n == 0 {
+        assert!(matches!(&r, Poll::Ready(Err(e)) if e.kind() == io::ErrorKind::WriteZero));
+    } else if skip + n == total {
+        assert!(matches!(&r, Poll::Ready(Ok(_))), "every byte sent => Ok");
+        assert!(unsafe { env::E.repoll_entries } == 1);
+    } else {
+        assert!(r.is_pending() && unsafe { env::E.repoll_entries } == 2, "bytes left in SOME buffer => not finished: re-armed and re-polled");
+        assert!(status_any(&w.send.fut.state) == St::NotStarted && w.skip == skip + n);
+        let s2 = skip + n;
+        let res = peek_resources(&w.send.fut.state);
+        let iov = &res.2;
+        let w0l = if s2 < b0.len as u64 { b0.len as u64 - s2 } else { 0 };
+        let in1 = if s2 > b0.len as u64 { s2 - b0.len as u64 } else { 0 };
+        assert!(iov[0].len() as u64 == w0l && (w0l == 0 || unsafe { iov[0].ptr() }.addr() as u64 == b0.ptr.addr() as u64 + s2), "first iovec == unsent tail of the first buffer");
+        assert!(iov[1].len() as u64 == b1.len as u64 - in1 && (iov[1].len() == 0 || unsafe { iov[1].ptr() }.addr() as u64 == b1.ptr.addr() as u64 + in1), "second iovec == unsent tail of the second buffer");
+        let a = w.send.fut.state.args();
+        assert!(a.1.0 == fl, "continuation keeps the caller's flags");
+        assert!(same_call(a.0, zc), "continuation keeps the zero-copy mode");
+    }
+    std::mem::forget(r);
+    std::mem::forget(w);
+    assert!(!(n > 0 && skip + n < total && b1.len == 0), "CANARY: unfinished with an EMPTY LAST buffer reachable");
+    assert!(!(n > 0 && skip + n < total && fl != 0 && zc), "CANARY: continuation with flags and zero-copy reachable");
+    assert!(!(skip + n == total && n > 0), "CANARY: finished reachable");
+    assert!(n != 0, "CANARY: write zero reachable");
+}
+
+/// recv_n step
+//@waker_stubs
+#[kani::proof]
+#[kani::unwind(3)]
+fn c10_recv_n_step() {
+    let mut ring = FakeSq::<2>::new(0, 0, 0);
+    let subs = subs_of(ring.shared(2, false, false));
+    let (afd, _fdn, _kind) = mk_fd(&subs);
+    let buf = any_rb(0);
+    kani::assume(buf.cap > buf.len);
+    let left: usize = kani::any();
+    kani::assume(left >= 1);
+    let fl: u32 = kani::any();
+    let mut rd = afd.recv_n(buf, left).flags(RecvFlag(fl));
+    let n: u32 = kani::any();
+    kani::assume(n <= buf.cap - buf.len);
+    force_done(&rd.recv.state, n as i32, 0);
+    env::fallback_as_identity();
+    env::use_poll_contract();
+    env::cut_at_repoll();
+    let waker = env::waker(4);
+    let mut ctx = Context::from_waker(&waker);
+    let r = unsafe { Pin::new_unchecked(&mut rd) }.poll(&mut ctx);
+    if n == 0 {
+        assert!(matches!(&r, Poll::Ready(Err(e)) if e.kind() == io::ErrorKind::UnexpectedEof), "stream ended first => UnexpectedEof");
+    } else if n as usize >= left {
+        assert!(matches!(&r, Poll::Ready(Ok(b)) if b.ptr == buf.ptr && b.len == buf.len + n), "at least n bytes appended => Ok(buffer)");
+    } else {
+        assert!(r.is_pending() && unsafe { env::E.repoll_entries } == 2);
+        assert!(status_any(&rd.recv.state) == St::NotStarted && rd.left == left - n as usize);
+        let nb = peek_resources(&rd.recv.state);
+        assert!(nb.buf.ptr == buf.ptr && nb.buf.len == buf.len + n && nb.buf.cap == buf.cap, "same buffer with the bytes received so far");
+        assert!(rd.recv.state.args().0 == fl, "same flags on the continuation");
+    }
+    std::mem::forget(r);
+    std::mem::forget(rd);
+    assert!(!(n > 0 && (n as usize) < left && fl != 0), "CANARY: continuation with flags reachable");
+    assert!(!(n as usize >= left), "CANARY: finished reachable");
+    assert!(n != 0, "CANARY: eof reachable");
+}
